@@ -13,7 +13,7 @@ use dvb_gse_rust::header_extension::{
     Extension, ExtensionData, MandatoryHeaderExt, MandatoryHeaderExtensionManager,
 };
 use std::cell::RefCell;
-use std::panic::{catch_unwind, AssertUnwindSafe};
+use std::panic::AssertUnwindSafe;
 use std::rc::Rc;
 
 /// Mandatory-extension manager driven by a table: (id, final?, data size).
@@ -346,7 +346,7 @@ pub fn project_mem(mem: &MemImpl, ids: &[u8]) -> String {
 }
 
 pub fn project_simple(mem: &SimpleGseMemory, ids: &[u8]) -> String {
-    let r = catch_unwind(AssertUnwindSafe(|| {
+    let r = cu("memops", AssertUnwindSafe(|| {
         let mut free = vec![];
         let mut c = mem.clone();
         while let Ok(b) = c.new_pdu() {
@@ -457,7 +457,7 @@ impl<C: CrcCalculator, M: MandatoryHeaderExtensionManager> Rx<C, M> {
     }
     pub fn ev_provision_buf(&mut self, out: &mut Out, buf: Box<[u8]>) -> Option<Box<[u8]>> {
         let tag = buf.len();
-        let r = catch_unwind(AssertUnwindSafe(|| self.d.provision_storage(buf)));
+        let r = cu("provision", AssertUnwindSafe(|| self.d.provision_storage(buf)));
         let (res, back): (String, Option<Box<[u8]>>) = match r {
             Err(_) => ("panic".into(), None),
             Ok(Ok(())) => ("ok".into(), None),
@@ -480,7 +480,7 @@ impl<C: CrcCalculator, M: MandatoryHeaderExtensionManager> Rx<C, M> {
 
     /// the caller takes a free buffer out of the memory (Decapsulator::new_pdu)
     pub fn ev_take(&mut self, out: &mut Out) -> Option<Box<[u8]>> {
-        let r = catch_unwind(AssertUnwindSafe(|| self.d.new_pdu()));
+        let r = cu("take", AssertUnwindSafe(|| self.d.new_pdu()));
         let (res, buf): (&str, Option<Box<[u8]>>) = match r {
             Err(_) => ("panic", None),
             Ok(Ok(b)) => ("ok", Some(b)),
@@ -517,7 +517,7 @@ impl<C: CrcCalculator, M: MandatoryHeaderExtensionManager> Rx<C, M> {
         if bytes.len() > 2 {
             self.note_id(bytes[2]);
         }
-        let r: DecRes = catch_unwind(AssertUnwindSafe(|| self.d.decap(bytes))).ok();
+        let r: DecRes = cu("decap", AssertUnwindSafe(|| self.d.decap(bytes))).ok();
         let memops = self.take_log();
         let mut returned: Option<Box<[u8]>> = None;
         let mut consumed = None;
@@ -589,7 +589,7 @@ impl<C: CrcCalculator, M: MandatoryHeaderExtensionManager> Rx<C, M> {
     }
 
     pub fn ev_peek(&mut self, out: &mut Out, bytes: &[u8], enc: bool) {
-        let r = catch_unwind(AssertUnwindSafe(|| self.d.get_label_or_frag_id(bytes))).ok();
+        let r = cu("peek", AssertUnwindSafe(|| self.d.get_label_or_frag_id(bytes))).ok();
         let jres = match &r {
             None => Obj::new().str("t", "panic").end(),
             Some(Ok(LabelorFragId::FragId(i))) => Obj::new().str("t", "fragid").num("id", *i as usize).end(),
